@@ -229,15 +229,21 @@ def main():
 
     for t in range(int(a.get("mapping_cases", 2))):
         e_ = {"topo": str(rng.choice(["lsn", "usn", "cdn"])), "s": float(rng.choice([-1, 1])), "nR": int(rng.integers(17, 50)), "nZ": int(rng.integers(17, 60)), "shift": [float(rng.uniform(-0.01, 0.01)), float(rng.uniform(-0.01, 0.01))], "pn_max": 1.0}
+        # a box that is not centred on Z=0 (zmid != 0): the whole machine shifted, or more room above
+        # than below; the first case always has zmid != 0
+        zo = float(rng.choice([0.9, -1.3, 0.35])) if (t == 0 or rng.random() < 0.5) else 0.0
+        e_["zoff"] = zo
+        if rng.random() < 0.5:
+            e_["Zlim"] = [-0.7, float(rng.choice([0.9, 1.2]))]
         fam = families.GaussFamily(e_)
         R1D, Z1D, psi2D, psi1D, fpol1D, pres = fam.arrays()
-        wall = families.make_wall({"kind": str(rng.choice(["box", "slant", "poly"])), "cw": bool(rng.random() < 0.5)})
+        wall = families.make_wall({"kind": str(rng.choice(["box", "slant", "poly"])), "cw": bool(rng.random() < 0.5), "zoff": zo})
         inp = dict(R1D=R1D, Z1D=Z1D, psi2D=psi2D, psi1D=psi1D, fpol1D=fpol1D, pressure=pres, wall=wall)
         data = geqdsk_data(inp, fam)
         buf = io.StringIO()
         _geqdsk.write(data, buf, label="VERIF")
         for interp in ("spline", "dct"):
-            cls = "read_geqdsk|%s" % interp
+            cls = "read_geqdsk|%s|%s" % (interp, "zmid=0" if abs(Z1D[0] + Z1D[-1]) < 1e-12 else "zmid!=0")
             nexec += 1
             fh = io.StringIO(buf.getvalue())
             import contextlib
